@@ -258,6 +258,9 @@ func (r *reporter) judge(cs *Case, o *Obs) {
 		return
 	}
 	line := lineOf(cs)
+	if len(o.AccPanic) > 0 || o.Panic {
+		return // the panic is the finding; the outcome of the call is a consequence
+	}
 	switch cs.Class {
 	case "E":
 		if !o.Err {
